@@ -821,11 +821,12 @@ package spine
 //@   define HBD(k) = setdata[k].(*model.DeviceDiagnosisHeartbeatDataType)
 //@   ensures[C16] ends-only-when-stopped: closed(stopC)
 //@   ensures[C16] lock-released: !held(c.mux)
-//@   modifies tickp, c.heartBeatNum, held, @SETLOG, @PUBLISH, outmisc, world, @NTLOG
+//@   modifies tickp, c.heartBeatNum, cells(uint64), held, @SETLOG, @PUBLISH, outmisc, world, @NTLOG
 //@   loop 0 invariant period: ticker != nil && tickp[ticker] > 0 && tickp[ticker] <= old(d) && (old(d) > 2000000000 ==> tickp[ticker] == old(d) - 2000000000) && (old(d) <= 2000000000 ==> tickp[ticker] == old(d))
 //@   loop 0 invariant one-refresh-per-tick: setn - S0 == c.heartBeatNum - N0 && setn >= S0
-//@   loop 0 invariant refresh: forall k int :: S0 <= k && k < setn ==> setobj[k] == LF && setfct[k] == model.FunctionTypeDeviceDiagnosisHeartbeatData && typeIs(setdata[k], *model.DeviceDiagnosisHeartbeatDataType) && HBD(k) != nil && HBD(k).HeartbeatCounter != nil && *HBD(k).HeartbeatCounter == N0 + (k - S0) + 1 && HBD(k).HeartbeatTimeout == old(c.heartBeatTimeout) && HBD(k).Timestamp != nil
+//@   loop 0 invariant refresh: forall k int :: S0 <= k && k < setn ==> setobj[k] == LF && setfct[k] == model.FunctionTypeDeviceDiagnosisHeartbeatData && typeIs(setdata[k], *model.DeviceDiagnosisHeartbeatDataType) && HBD(k) != nil && HBD(k).HeartbeatCounter != nil && fresh(HBD(k).HeartbeatCounter) && allocated(HBD(k).HeartbeatCounter) && *HBD(k).HeartbeatCounter == N0 + (k - S0) + 1 && HBD(k).HeartbeatTimeout == old(c.heartBeatTimeout) && HBD(k).Timestamp != nil
 //@   loop 0 invariant unlocked: !held(c.mux) && c.localFeature == LF && c.heartBeatTimeout == old(c.heartBeatTimeout)
+//@   loop 0 invariant counter-only: unchangedPreBut(uint64, c)
 
 // wiring: a device-diagnosis server feature that offers the heartbeat function for reading gets initial heartbeat
 // data and (re)starts the one stream; anything else leaves the manager alone
